@@ -285,6 +285,7 @@ package implementation
 //@ assume-global[abi-roundtrip-token-tuples] forall n string, l0 int, c0 int, l1 int, c1 int, l2 int, c2 int, l3 int, c3 int :: abidec_TokenTuplesParam_TokenStandards_len(n, abipack_LLLL(n, l0, c0, l1, c1, l2, c2, l3, c3)) == l0 && abidec_TokenTuplesParam_ZnnPercentages_len(n, abipack_LLLL(n, l0, c0, l1, c1, l2, c2, l3, c3)) == l1 && abidec_TokenTuplesParam_QsrPercentages_len(n, abipack_LLLL(n, l0, c0, l1, c1, l2, c2, l3, c3)) == l2 && abidec_TokenTuplesParam_MinAmounts_len(n, abipack_LLLL(n, l0, c0, l1, c1, l2, c2, l3, c3)) == l3
 //@ spec tupleLists(n string, d int) bool = abidec_TokenTuplesParam_ZnnPercentages_len(n, d) == abidec_TokenTuplesParam_TokenStandards_len(n, d) && abidec_TokenTuplesParam_QsrPercentages_len(n, d) == abidec_TokenTuplesParam_TokenStandards_len(n, d) && abidec_TokenTuplesParam_MinAmounts_len(n, d) == abidec_TokenTuplesParam_TokenStandards_len(n, d)
 //@ func SetTokenTupleMethod.ValidateSendBlock(p, block) -> (err)
+//@   ensures[the-call-data-left-in-the-block-is-the-canonical-re-encoding] err == nil && calls("PackMethod") >= 1 ==> bytesval(block.Data) == lastpacked()
 //@   attr uses abi-roundtrip-token-tuples
 //@   safety
 //@   requires p != nil && block != nil && block.Amount != nil
@@ -348,7 +349,8 @@ package implementation
 //@   inline
 //@ func WrapTokenMethod.ReceiveBlock(p, context, sendBlock)
 //@   safety
-//@ func FuseMethod.ValidateSendBlock(p, block)
+//@ func FuseMethod.ValidateSendBlock(p, block) -> (err)
+//@   ensures[the-call-data-left-in-the-block-is-the-canonical-re-encoding] err == nil && calls("PackMethod") >= 1 ==> bytesval(block.Data) == lastpacked()
 //@   safety
 //@   inline
 // the weighted stake is a new number; computing it changes nothing else
@@ -609,3 +611,200 @@ package implementation
 //@ func VoteByProdAddressMethod.ReceiveBlock(p, context, sendBlock)
 //@   safety
 //@   requires p != nil && sendBlock != nil && sendBlock.Amount != nil
+
+// ======================================================================================================================
+// Property C13, canonical call data (sweep): every ValidateSendBlock that re-packs the decoded parameters leaves THAT packed
+// byte string in the block it was handed (which is the block that is hashed, signed and stored: vm.applySend). `lastpacked()`
+// is the ghost the model of the ABI Pack* calls sets; a method that does not re-pack at all is not covered by this clause.
+//@ func ActivateSporkMethod.ValidateSendBlock(p, block) -> (err)
+//@   inline
+//@   ensures[the-call-data-left-in-the-block-is-the-canonical-re-encoding] err == nil && calls("PackMethod") >= 1 ==> bytesval(block.Data) == lastpacked()
+//@ func AddPhaseMethod.ValidateSendBlock(p, block) -> (err)
+//@   inline
+//@   ensures[the-call-data-left-in-the-block-is-the-canonical-re-encoding] err == nil && calls("PackMethod") >= 1 ==> bytesval(block.Data) == lastpacked()
+//@ func AllowHtlcProxyUnlockMethod.ValidateSendBlock(p, block) -> (err)
+//@   inline
+//@   ensures[the-call-data-left-in-the-block-is-the-canonical-re-encoding] err == nil && calls("PackMethod") >= 1 ==> bytesval(block.Data) == lastpacked()
+//@ func BurnMethod.ValidateSendBlock(p, block) -> (err)
+//@   inline
+//@   ensures[the-call-data-left-in-the-block-is-the-canonical-re-encoding] err == nil && calls("PackMethod") >= 1 ==> bytesval(block.Data) == lastpacked()
+//@ func BurnZnnMethod.ValidateSendBlock(p, block) -> (err)
+//@   inline
+//@   ensures[the-call-data-left-in-the-block-is-the-canonical-re-encoding] err == nil && calls("PackMethod") >= 1 ==> bytesval(block.Data) == lastpacked()
+//@ func CancelFuseMethod.ValidateSendBlock(p, block) -> (err)
+//@   inline
+//@   ensures[the-call-data-left-in-the-block-is-the-canonical-re-encoding] err == nil && calls("PackMethod") >= 1 ==> bytesval(block.Data) == lastpacked()
+//@ func CancelLiquidityStakeMethod.ValidateSendBlock(p, block) -> (err)
+//@   inline
+//@   ensures[the-call-data-left-in-the-block-is-the-canonical-re-encoding] err == nil && calls("PackMethod") >= 1 ==> bytesval(block.Data) == lastpacked()
+//@ func CancelStakeMethod.ValidateSendBlock(p, block) -> (err)
+//@   inline
+//@   ensures[the-call-data-left-in-the-block-is-the-canonical-re-encoding] err == nil && calls("PackMethod") >= 1 ==> bytesval(block.Data) == lastpacked()
+//@ func ChangeAdministratorLiquidity.ValidateSendBlock(p, block) -> (err)
+//@   inline
+//@   ensures[the-call-data-left-in-the-block-is-the-canonical-re-encoding] err == nil && calls("PackMethod") >= 1 ==> bytesval(block.Data) == lastpacked()
+//@ func ChangeAdministratorMethod.ValidateSendBlock(p, block) -> (err)
+//@   inline
+//@   ensures[the-call-data-left-in-the-block-is-the-canonical-re-encoding] err == nil && calls("PackMethod") >= 1 ==> bytesval(block.Data) == lastpacked()
+//@ func ChangeTssECDSAPubKeyMethod.ValidateSendBlock(p, block) -> (err)
+//@   inline
+//@   ensures[the-call-data-left-in-the-block-is-the-canonical-re-encoding] err == nil && calls("PackMethod") >= 1 ==> bytesval(block.Data) == lastpacked()
+//@ func CollectRewardMethod.ValidateSendBlock(p, block) -> (err)
+//@   inline
+//@   ensures[the-call-data-left-in-the-block-is-the-canonical-re-encoding] err == nil && calls("PackMethod") >= 1 ==> bytesval(block.Data) == lastpacked()
+//@ func CreateHtlcMethod.ValidateSendBlock(p, block) -> (err)
+//@   inline
+//@   ensures[the-call-data-left-in-the-block-is-the-canonical-re-encoding] err == nil && calls("PackMethod") >= 1 ==> bytesval(block.Data) == lastpacked()
+//@ func CreateProjectMethod.ValidateSendBlock(p, block) -> (err)
+//@   inline
+//@   ensures[the-call-data-left-in-the-block-is-the-canonical-re-encoding] err == nil && calls("PackMethod") >= 1 ==> bytesval(block.Data) == lastpacked()
+//@ func CreateSporkMethod.ValidateSendBlock(p, block) -> (err)
+//@   inline
+//@   ensures[the-call-data-left-in-the-block-is-the-canonical-re-encoding] err == nil && calls("PackMethod") >= 1 ==> bytesval(block.Data) == lastpacked()
+//@ func DelegateMethod.ValidateSendBlock(p, block) -> (err)
+//@   inline
+//@   ensures[the-call-data-left-in-the-block-is-the-canonical-re-encoding] err == nil && calls("PackMethod") >= 1 ==> bytesval(block.Data) == lastpacked()
+//@ func DenyHtlcProxyUnlockMethod.ValidateSendBlock(p, block) -> (err)
+//@   inline
+//@   ensures[the-call-data-left-in-the-block-is-the-canonical-re-encoding] err == nil && calls("PackMethod") >= 1 ==> bytesval(block.Data) == lastpacked()
+//@ func DepositQsrMethod.ValidateSendBlock(p, block) -> (err)
+//@   inline
+//@   ensures[the-call-data-left-in-the-block-is-the-canonical-re-encoding] err == nil && calls("PackMethod") >= 1 ==> bytesval(block.Data) == lastpacked()
+//@ func DonateMethod.ValidateSendBlock(p, block) -> (err)
+//@   inline
+//@   ensures[the-call-data-left-in-the-block-is-the-canonical-re-encoding] err == nil && calls("PackMethod") >= 1 ==> bytesval(block.Data) == lastpacked()
+//@ func EmergencyLiquidity.ValidateSendBlock(p, block) -> (err)
+//@   inline
+//@   ensures[the-call-data-left-in-the-block-is-the-canonical-re-encoding] err == nil && calls("PackMethod") >= 1 ==> bytesval(block.Data) == lastpacked()
+//@ func EmergencyMethod.ValidateSendBlock(p, block) -> (err)
+//@   inline
+//@   ensures[the-call-data-left-in-the-block-is-the-canonical-re-encoding] err == nil && calls("PackMethod") >= 1 ==> bytesval(block.Data) == lastpacked()
+//@ func FundMethod.ValidateSendBlock(p, block) -> (err)
+//@   inline
+//@   ensures[the-call-data-left-in-the-block-is-the-canonical-re-encoding] err == nil && calls("PackMethod") >= 1 ==> bytesval(block.Data) == lastpacked()
+//@ func HaltMethod.ValidateSendBlock(p, block) -> (err)
+//@   inline
+//@   ensures[the-call-data-left-in-the-block-is-the-canonical-re-encoding] err == nil && calls("PackMethod") >= 1 ==> bytesval(block.Data) == lastpacked()
+//@ func IssueMethod.ValidateSendBlock(p, block) -> (err)
+//@   inline
+//@   ensures[the-call-data-left-in-the-block-is-the-canonical-re-encoding] err == nil && calls("PackMethod") >= 1 ==> bytesval(block.Data) == lastpacked()
+//@ func LegacyRegisterMethod.ValidateSendBlock(p, block) -> (err)
+//@   inline
+//@   ensures[the-call-data-left-in-the-block-is-the-canonical-re-encoding] err == nil && calls("PackMethod") >= 1 ==> bytesval(block.Data) == lastpacked()
+//@ func LiquidityStakeMethod.ValidateSendBlock(p, block) -> (err)
+//@   inline
+//@   ensures[the-call-data-left-in-the-block-is-the-canonical-re-encoding] err == nil && calls("PackMethod") >= 1 ==> bytesval(block.Data) == lastpacked()
+//@ func MintMethod.ValidateSendBlock(p, block) -> (err)
+//@   inline
+//@   ensures[the-call-data-left-in-the-block-is-the-canonical-re-encoding] err == nil && calls("PackMethod") >= 1 ==> bytesval(block.Data) == lastpacked()
+//@ func NominateGuardiansLiquidity.ValidateSendBlock(p, block) -> (err)
+//@   inline
+//@   ensures[the-call-data-left-in-the-block-is-the-canonical-re-encoding] err == nil && calls("PackMethod") >= 1 ==> bytesval(block.Data) == lastpacked()
+//@ func NominateGuardiansMethod.ValidateSendBlock(p, block) -> (err)
+//@   inline
+//@   ensures[the-call-data-left-in-the-block-is-the-canonical-re-encoding] err == nil && calls("PackMethod") >= 1 ==> bytesval(block.Data) == lastpacked()
+//@ func ProposeAdministratorLiquidity.ValidateSendBlock(p, block) -> (err)
+//@   inline
+//@   ensures[the-call-data-left-in-the-block-is-the-canonical-re-encoding] err == nil && calls("PackMethod") >= 1 ==> bytesval(block.Data) == lastpacked()
+//@ func ProposeAdministratorMethod.ValidateSendBlock(p, block) -> (err)
+//@   inline
+//@   ensures[the-call-data-left-in-the-block-is-the-canonical-re-encoding] err == nil && calls("PackMethod") >= 1 ==> bytesval(block.Data) == lastpacked()
+//@ func ReclaimHtlcMethod.ValidateSendBlock(p, block) -> (err)
+//@   inline
+//@   ensures[the-call-data-left-in-the-block-is-the-canonical-re-encoding] err == nil && calls("PackMethod") >= 1 ==> bytesval(block.Data) == lastpacked()
+//@ func RedeemMethod.ValidateSendBlock(p, block) -> (err)
+//@   inline
+//@   ensures[the-call-data-left-in-the-block-is-the-canonical-re-encoding] err == nil && calls("PackMethod") >= 1 ==> bytesval(block.Data) == lastpacked()
+//@ func RegisterMethod.ValidateSendBlock(p, block) -> (err)
+//@   inline
+//@   ensures[the-call-data-left-in-the-block-is-the-canonical-re-encoding] err == nil && calls("PackMethod") >= 1 ==> bytesval(block.Data) == lastpacked()
+//@ func RemoveNetworkMethod.ValidateSendBlock(p, block) -> (err)
+//@   inline
+//@   ensures[the-call-data-left-in-the-block-is-the-canonical-re-encoding] err == nil && calls("PackMethod") >= 1 ==> bytesval(block.Data) == lastpacked()
+//@ func RemoveTokenPairMethod.ValidateSendBlock(p, block) -> (err)
+//@   inline
+//@   ensures[the-call-data-left-in-the-block-is-the-canonical-re-encoding] err == nil && calls("PackMethod") >= 1 ==> bytesval(block.Data) == lastpacked()
+//@ func RevokeMethod.ValidateSendBlock(p, block) -> (err)
+//@   inline
+//@   ensures[the-call-data-left-in-the-block-is-the-canonical-re-encoding] err == nil && calls("PackMethod") >= 1 ==> bytesval(block.Data) == lastpacked()
+//@ func RevokeUnwrapRequestMethod.ValidateSendBlock(p, block) -> (err)
+//@   inline
+//@   ensures[the-call-data-left-in-the-block-is-the-canonical-re-encoding] err == nil && calls("PackMethod") >= 1 ==> bytesval(block.Data) == lastpacked()
+//@ func SetAdditionalReward.ValidateSendBlock(p, block) -> (err)
+//@   inline
+//@   ensures[the-call-data-left-in-the-block-is-the-canonical-re-encoding] err == nil && calls("PackMethod") >= 1 ==> bytesval(block.Data) == lastpacked()
+//@ func SetAllowKeygenMethod.ValidateSendBlock(p, block) -> (err)
+//@   inline
+//@   ensures[the-call-data-left-in-the-block-is-the-canonical-re-encoding] err == nil && calls("PackMethod") >= 1 ==> bytesval(block.Data) == lastpacked()
+//@ func SetBridgeMetadataMethod.ValidateSendBlock(p, block) -> (err)
+//@   inline
+//@   ensures[the-call-data-left-in-the-block-is-the-canonical-re-encoding] err == nil && calls("PackMethod") >= 1 ==> bytesval(block.Data) == lastpacked()
+//@ func SetIsHalted.ValidateSendBlock(p, block) -> (err)
+//@   inline
+//@   ensures[the-call-data-left-in-the-block-is-the-canonical-re-encoding] err == nil && calls("PackMethod") >= 1 ==> bytesval(block.Data) == lastpacked()
+//@ func SetNetworkMetadataMethod.ValidateSendBlock(p, block) -> (err)
+//@   inline
+//@   ensures[the-call-data-left-in-the-block-is-the-canonical-re-encoding] err == nil && calls("PackMethod") >= 1 ==> bytesval(block.Data) == lastpacked()
+//@ func SetNetworkMethod.ValidateSendBlock(p, block) -> (err)
+//@   inline
+//@   ensures[the-call-data-left-in-the-block-is-the-canonical-re-encoding] err == nil && calls("PackMethod") >= 1 ==> bytesval(block.Data) == lastpacked()
+//@ func SetOrchestratorInfoMethod.ValidateSendBlock(p, block) -> (err)
+//@   inline
+//@   ensures[the-call-data-left-in-the-block-is-the-canonical-re-encoding] err == nil && calls("PackMethod") >= 1 ==> bytesval(block.Data) == lastpacked()
+//@ func SetTokenPairMethod.ValidateSendBlock(p, block) -> (err)
+//@   inline
+//@   ensures[the-call-data-left-in-the-block-is-the-canonical-re-encoding] err == nil && calls("PackMethod") >= 1 ==> bytesval(block.Data) == lastpacked()
+//@ func StakeMethod.ValidateSendBlock(p, block) -> (err)
+//@   inline
+//@   ensures[the-call-data-left-in-the-block-is-the-canonical-re-encoding] err == nil && calls("PackMethod") >= 1 ==> bytesval(block.Data) == lastpacked()
+//@ func SwapRetrieveAssetsMethod.ValidateSendBlock(p, block) -> (err)
+//@   inline
+//@   ensures[the-call-data-left-in-the-block-is-the-canonical-re-encoding] err == nil && calls("PackMethod") >= 1 ==> bytesval(block.Data) == lastpacked()
+//@ func UndelegateMethod.ValidateSendBlock(p, block) -> (err)
+//@   inline
+//@   ensures[the-call-data-left-in-the-block-is-the-canonical-re-encoding] err == nil && calls("PackMethod") >= 1 ==> bytesval(block.Data) == lastpacked()
+//@ func UnhaltMethod.ValidateSendBlock(p, block) -> (err)
+//@   inline
+//@   ensures[the-call-data-left-in-the-block-is-the-canonical-re-encoding] err == nil && calls("PackMethod") >= 1 ==> bytesval(block.Data) == lastpacked()
+//@ func UnlockHtlcMethod.ValidateSendBlock(p, block) -> (err)
+//@   inline
+//@   ensures[the-call-data-left-in-the-block-is-the-canonical-re-encoding] err == nil && calls("PackMethod") >= 1 ==> bytesval(block.Data) == lastpacked()
+//@ func UnlockLiquidityStakeEntries.ValidateSendBlock(p, block) -> (err)
+//@   inline
+//@   ensures[the-call-data-left-in-the-block-is-the-canonical-re-encoding] err == nil && calls("PackMethod") >= 1 ==> bytesval(block.Data) == lastpacked()
+//@ func UnwrapTokenMethod.ValidateSendBlock(p, block) -> (err)
+//@   inline
+//@   ensures[the-call-data-left-in-the-block-is-the-canonical-re-encoding] err == nil && calls("PackMethod") >= 1 ==> bytesval(block.Data) == lastpacked()
+//@ func UpdateEmbeddedAcceleratorMethod.ValidateSendBlock(p, block) -> (err)
+//@   inline
+//@   ensures[the-call-data-left-in-the-block-is-the-canonical-re-encoding] err == nil && calls("PackMethod") >= 1 ==> bytesval(block.Data) == lastpacked()
+//@ func UpdateEmbeddedPillarMethod.ValidateSendBlock(p, block) -> (err)
+//@   inline
+//@   ensures[the-call-data-left-in-the-block-is-the-canonical-re-encoding] err == nil && calls("PackMethod") >= 1 ==> bytesval(block.Data) == lastpacked()
+//@ func UpdateEmbeddedStakeMethod.ValidateSendBlock(p, block) -> (err)
+//@   inline
+//@   ensures[the-call-data-left-in-the-block-is-the-canonical-re-encoding] err == nil && calls("PackMethod") >= 1 ==> bytesval(block.Data) == lastpacked()
+//@ func UpdatePhaseMethod.ValidateSendBlock(p, block) -> (err)
+//@   inline
+//@   ensures[the-call-data-left-in-the-block-is-the-canonical-re-encoding] err == nil && calls("PackMethod") >= 1 ==> bytesval(block.Data) == lastpacked()
+//@ func UpdatePillarMethod.ValidateSendBlock(p, block) -> (err)
+//@   inline
+//@   ensures[the-call-data-left-in-the-block-is-the-canonical-re-encoding] err == nil && calls("PackMethod") >= 1 ==> bytesval(block.Data) == lastpacked()
+//@ func UpdateTokenMethod.ValidateSendBlock(p, block) -> (err)
+//@   inline
+//@   ensures[the-call-data-left-in-the-block-is-the-canonical-re-encoding] err == nil && calls("PackMethod") >= 1 ==> bytesval(block.Data) == lastpacked()
+//@ func UpdateWrapRequestMethod.ValidateSendBlock(p, block) -> (err)
+//@   inline
+//@   ensures[the-call-data-left-in-the-block-is-the-canonical-re-encoding] err == nil && calls("PackMethod") >= 1 ==> bytesval(block.Data) == lastpacked()
+//@ func VoteByNameMethod.ValidateSendBlock(p, block) -> (err)
+//@   inline
+//@   ensures[the-call-data-left-in-the-block-is-the-canonical-re-encoding] err == nil && calls("PackMethod") >= 1 ==> bytesval(block.Data) == lastpacked()
+//@ func VoteByProdAddressMethod.ValidateSendBlock(p, block) -> (err)
+//@   inline
+//@   ensures[the-call-data-left-in-the-block-is-the-canonical-re-encoding] err == nil && calls("PackMethod") >= 1 ==> bytesval(block.Data) == lastpacked()
+//@ func WithdrawQsrMethod.ValidateSendBlock(p, block) -> (err)
+//@   inline
+//@   ensures[the-call-data-left-in-the-block-is-the-canonical-re-encoding] err == nil && calls("PackMethod") >= 1 ==> bytesval(block.Data) == lastpacked()
+//@ func WrapTokenMethod.ValidateSendBlock(p, block) -> (err)
+//@   inline
+//@   ensures[the-call-data-left-in-the-block-is-the-canonical-re-encoding] err == nil && calls("PackMethod") >= 1 ==> bytesval(block.Data) == lastpacked()
